@@ -1,6 +1,167 @@
-(* C11 - attributes behave as a mapping keyed by namespace and local name.  (statements follow) *)
+(* C11 - attributes behave as a mapping keyed by namespace and local name.
+   Statements only; every proof is `exact` of a lemma of Attr/AttrFacts.v (refutations: vm_compute).
+
+   Model (Attr/AttrModel.v): lxml's store on Clark-notation keys, the default namespace in scope, the
+   node's namespace, TagAttributes' cache of Attribute objects, every Attribute object as Live qname |
+   Dead last_value; `sys_step` = one operation of a client that keeps the objects it was handed.
+   Specification: `dict_step` on an association list keyed by (namespace, local name) plus the client's
+   views (VLive key | VDead value).  `deconstruct_clark_notation` is Gen/GenAttr.v, regenerated from
+   _delb/names.py on every run; the model is defined in terms of it. *)
 From Coq Require Import List NArith Bool.
 From Delb.Base Require Import PyStr PySplit.
 From Delb.Gen Require Import GenAttr.
-From Delb.Attr Require Import AttrModel AttrEnc.
+From Delb.Attr Require Import AttrModel AttrEnc AttrFacts.
 Import ListNotations.
+
+(* the generated function is the stated reading of Clark notation: "{ns}name" | "name" *)
+Theorem C11_clark_generated : forall s,
+  deconstruct_clark_notation s deconstruct_clark_notation_null_default =
+  match spec_clark s with Some p => Ok p | None => Crash ValueError end.
+Proof. exact decon_spec. Qed.
+Print Assumptions C11_clark_generated.
+
+(* Every operation (get/set/del/contains/iter/len/pop/update on the mapping, the node subscripts, value /
+   local_name / namespace assignment through a held object) on a well-formed state, inside the guard,
+   gives the dictionary's answer, commutes with the abstraction and preserves well-formedness. *)
+Theorem C11_refines : forall y x, sys_wf y = true -> step_safe y x = true -> step_ok y x.
+Proof. exact refines_all. Qed.
+Print Assumptions C11_refines.
+
+(* ... hence every sequence of operations, of any length *)
+Theorem C11_refines_run : forall y l, sys_wf y = true -> run_safe y l = true -> run_ok y l.
+Proof. exact refines_run_all. Qed.
+Print Assumptions C11_refines_run.
+
+(* Full statement (no guard): forall y l, sys_wf y = true -> run_ok y l.  It is false of the faithful model: *)
+
+(* DESIGN finding 23: fetch, re-set, delete: the object fetched first raises KeyError (specification: "2") *)
+Theorem C11_refuted_stale : exists y l, sys_wf y = true /\ run_disagrees y l.
+Proof.
+  exists (init_sys [] [] []).
+  exists [OSet (AStr [107%N]) [49%N]; OGet (AStr [107%N]); OSet (AStr [107%N]) [50%N]; ODel (AStr [107%N]); OValue 0].
+  split; [vm_compute; reflexivity|]. exists 4, (RStr [50%N]), RKeyError. vm_compute.
+  repeat split; try reflexivity; discriminate.
+Qed.
+Print Assumptions C11_refuted_stale.
+
+(* renaming between "no namespace" and the default namespace deletes the entry (specification: len 1) *)
+Theorem C11_refuted_alias_rename : exists y l, sys_wf y = true /\ run_disagrees y l.
+Proof.
+  exists (init_sys [100%N] [100%N] [([107%N], [49%N])]).
+  exists [OGet (AStr [107%N]); OSetNs 0 []; OLen].
+  split; [vm_compute; reflexivity|]. exists 2, (RNat 1), (RNat 0). vm_compute.
+  repeat split; try reflexivity; discriminate.
+Qed.
+Print Assumptions C11_refuted_alias_rename.
+
+(* DESIGN findings 13b/13e: the store holds {d}k while d is the default namespace in scope; everything
+   else is well-formed and the operations are inside the guard, yet len is 2 (specification: 1) *)
+Theorem C11_refuted_collision : exists y l,
+  store_shape (fst y) = true /\ cache_ok (fst y) = true /\ snd y = [] /\ no_collision (fst y) = false /\
+  run_safe y l = true /\ run_disagrees y l.
+Proof.
+  exists (init_sys [100%N] [100%N] [(123%N :: 100%N :: 125%N :: [107%N], [48%N])]).
+  exists [ONodeSet (AStr [107%N]) [49%N]; OLen].
+  repeat split; try (vm_compute; reflexivity). exists 1, (RNat 1), (RNat 2). vm_compute.
+  repeat split; try reflexivity; discriminate.
+Qed.
+Print Assumptions C11_refuted_collision.
+
+Theorem C11_refuted_means_not_ok : forall y l, run_disagrees y l -> ~ run_ok y l.
+Proof. exact disagrees_not_ok. Qed.
+Print Assumptions C11_refuted_means_not_ok.
+
+(* a local name, a Clark-notation name and a (namespace, name) pair that denote the same attribute are
+   resolved to the same qualified name, and every operation depends on the accessor only through it *)
+Theorem C11_accessors : forall s ns name,
+  plain ns = true ->
+  resolve s (AStr (LBRACE :: ns ++ RBRACE :: name)) = Ok (ns, name) /\
+  resolve s (APair (Some ns) name) = Ok (ns, name) /\
+  (plain name = true ->
+   resolve s (AStr name) = Ok (st_node_ns s, name) /\ resolve s (APair None name) = Ok (st_node_ns s, name)).
+Proof. exact accessors_same. Qed.
+Print Assumptions C11_accessors.
+
+Theorem C11_accessors_ops : forall s a1 a2,
+  resolve s a1 = resolve s a2 ->
+  astep s (OGet a1) = astep s (OGet a2) /\ (forall v, astep s (OSet a1 v) = astep s (OSet a2 v)) /\
+  astep s (ODel a1) = astep s (ODel a2) /\ astep s (OContains a1) = astep s (OContains a2) /\
+  astep s (OPop a1) = astep s (OPop a2) /\
+  astep s (ONodeGet a1) = astep s (ONodeGet a2) /\ (forall v, astep s (ONodeSet a1 v) = astep s (ONodeSet a2 v)) /\
+  astep s (ONodeDel a1) = astep s (ONodeDel a2) /\ astep s (ONodeContains a1) = astep s (ONodeContains a2).
+Proof. exact astep_resolve. Qed.
+Print Assumptions C11_accessors_ops.
+
+(* and "no namespace" / "the default namespace in scope" reach the same store entry *)
+Theorem C11_accessors_default_ns : forall dns name, etree_key dns ([], name) = etree_key dns (dns, name).
+Proof. exact alias_same_entry. Qed.
+Print Assumptions C11_accessors_default_ns.
+
+(* An attribute object obtained earlier is a live view; renaming moves the entry; once removed it keeps its
+   last value.  This is what the specification says about views (i = the client's i-th object) ... *)
+Theorem C11_views_spec : forall d i k v,
+  nth_error (d_views d) i = Some (VLive k) ->
+  (* a change through the node shows in the object, a change through the object shows in the node *)
+  (forall h, snd (dict_step (with_dict d (dset (d_dict d) k v)) (OValue i) h) = RStr v) /\
+  (forall h, dict_step d (OSetValue i v) h = (with_dict d (dset (d_dict d) k v), RNone)) /\
+  (dget (d_dict d) k = Some v -> NoDup (map fst (d_dict d)) ->
+   (* removal: the entry is gone, the object keeps the last value and stays assignable *)
+   (let d' := fst (d_del d k) in
+    dget (d_dict d') k = None /\ nth_error (d_views d') i = Some (VDead v) /\
+    (forall h, snd (dict_step d' (OValue i) h) = RStr v) /\
+    (forall h w, snd (dict_step (fst (dict_step d' (OSetValue i w) h)) (OValue i) h) = RStr w)) /\
+   (* renaming: the entry moves with its value, the object views the new entry *)
+   (forall k', k <> k' ->
+    let d' := fst (d_rename d i k k') in
+    dget (d_dict d') k' = Some v /\ dget (d_dict d') k = None /\ nth_error (d_views d') i = Some (VLive k') /\
+    (forall h, snd (dict_step d' (OValue i) h) = RStr v))).
+Proof.
+  intros d i k v Hi. split; [intros h; exact (spec_view_reads_node d i k v h Hi)|].
+  split; [intros h; exact (spec_view_writes_node d i k v h Hi)|].
+  intros Hv ND. split; [exact (spec_view_removed d i k v Hi Hv ND)|].
+  intros k' Hne. exact (spec_view_renamed d i k k' v Hi Hv ND Hne).
+Qed.
+Print Assumptions C11_views_spec.
+
+(* ... and the model inherits it on every guarded run by C11_refines_run; spelled out for the case the
+   tests cannot enumerate (DESIGN finding 23): inside the guard, a held object whose entry is deleted
+   through any accessor answers with the entry's last value *)
+Theorem C11_views : forall y a i k v,
+  sys_wf y = true -> step_safe y (ODel a) = true -> acc_key (abs_sys y) a = Some k ->
+  nth_error (d_views (abs_sys y)) i = Some (VLive k) -> dget (d_dict (abs_sys y)) k = Some v ->
+  snd (sys_run y [ODel a; OValue i]) = [RNone; RStr v].
+Proof. exact view_keeps_value. Qed.
+Print Assumptions C11_views.
+
+(* TagAttributes.__eq__ (equal sizes, then every item of self found in other with an equal value) is
+   equality of the two dictionaries, for nodes with the same default namespace in scope *)
+Theorem C11_eq : forall s1 s2,
+  sys_wf (s1, []) = true -> sys_wf (s2, []) = true -> st_dns s2 = st_dns s1 ->
+  exists b, attrs_eq s1 s2 = RBool b /\
+            (b = true <-> dict_equiv (abs_store (st_dns s1) (st_store s1)) (abs_store (st_dns s2) (st_store s2))).
+Proof. exact attrs_eq_dict. Qed.
+Print Assumptions C11_eq.
+
+(* Full statement (without `st_dns s2 = st_dns s1`) is false: <a k="v"/> and <a xmlns="d" k="v"/> present
+   {("","k"): "v"} and {("d","k"): "v"} but compare equal *)
+Theorem C11_eq_refuted : exists s1 s2,
+  sys_wf (s1, []) = true /\ sys_wf (s2, []) = true /\ attrs_eq s1 s2 = RBool true /\
+  dict_eqb (abs_store (st_dns s1) (st_store s1)) (abs_store (st_dns s2) (st_store s2)) = false.
+Proof.
+  exists (init_state [] [] [([107%N], [118%N])]), (init_state [100%N] [100%N] [([107%N], [118%N])]).
+  vm_compute. repeat split; reflexivity.
+Qed.
+Print Assumptions C11_eq_refuted.
+
+(* non-vacuity: a well-formed node under a default namespace, a 13-step run inside the guards that sets,
+   fetches, writes through an object, renames it, deletes, reads the removed object and pops *)
+Example C11_example :
+  let y := init_sys [100%N] [100%N] [([107%N], [48%N])] in
+  let ej := APair (Some [101%N]) [106%N] in
+  let l := [OGet (AStr [107%N]); OSet ej [49%N]; OSetValue 0 [50%N];
+            OValue 0; OSetLocal 0 [104%N]; OContains (AStr [107%N]); OGet (AStr (123%N :: 101%N :: 125%N :: [106%N]));
+            OValue 1; OIter; ODel ej; OValue 1; OSet (AStr [107%N]) [51%N]; OPop (APair None [107%N])] in
+  sys_wf y = true /\ run_safe y l = true /\
+  snd (sys_run y l) = [RObj 0; RNone; RNone; RStr [50%N]; RNone; RBool false; RObj 1; RStr [49%N];
+                       RKeys [([101%N], [106%N]); ([100%N], [104%N])]; RNone; RStr [49%N]; RNone; RObj 2].
+Proof. vm_compute. repeat split; reflexivity. Qed.
